@@ -268,6 +268,14 @@ def dense_cases(ctx):
         for run in (20, 40, 70, 100, 200):
             # 1.07 x the sagitta of a run of that length: well off the exact tie
             out.append((circle, 1.07 * (1 - math.cos(math.pi * run / count))))
+    # list *length* around and beyond the round numbers a divide-and-conquer threshold would
+    # pick (1000, 1200, 2048, 2400, 4096, 5000): three quarters of a circle, runs of ~20 / ~45
+    for count in (1001, 1201, 1500, 2049, 2401) + ((4097, 5000) if ctx.thorough else (5000,)):
+        step = 1.5 * math.pi / count
+        long_arc = tuple((10 * math.sin(step * k), 10 - 10 * math.cos(step * k))
+                         for k in range(count))
+        for run in (20, 45):
+            out.append((long_arc, 1.07 * 10 * (1 - math.cos(step * run / 2))))
     arc = tuple((10 * math.sin(0.001 * k), 10 - 10 * math.cos(0.001 * k)) for k in range(601))
     out += [(arc, tol) for tol in (0.002, 0.01, 0.03)]
     spiral = tuple(((1 + 0.002 * k) * math.cos(0.01 * k), (1 + 0.002 * k) * math.sin(0.01 * k))
@@ -375,7 +383,7 @@ def run(ctx):
                 f"{tols}; lists of length 7-9 on a line with one off-line point; all 4-point "
                 "(and 5-point) tuples for the predicate comparison; the 4-vertex lists in units of 2^200 and 2^-200; long oblique chords (1e3..1e7 "
                 "units, offsets to 2e6) with vertices 0.25..4 tolerances off the chord or beyond one of its ends; oversampled "
-                "curves (runs of 20..200 vertices); near-repeated vertices 2^20 / 2^30 units out "
+                "curves (runs of 20..200 vertices; lists of 1001..5000 vertices); near-repeated vertices 2^20 / 2^30 units out "
                 "creeping off a chord; "
                 "non-trivial = simplification "
                 "deleted at least one vertex; all (list, tolerance) pairs distinct",
